@@ -7,7 +7,7 @@ from checks import spell, streams, scanner_mc
 def run(ctx):
     q = ctx.quick()
     scanner_mc.model_check(ctx, "C08")
-    vlib.model_check(ctx, "MC_Dict", "MC_Dict.cfg", workers=4, heap="3g")
+    scanner_mc.dict_mc(ctx)
     prm = dict(kind="pair", seed=ctx.seed % 100000, pairvariants=1 if q else 2, upto=0, rlow=[0], rhigh=[0], randn=0)
     spell.run_kind(ctx, "C08", "Gen_Spell", prm, "")
     n_pairs = ctx.extra.get("distinct_phrases", 0)
